@@ -23,9 +23,21 @@ Definition lua_pack_uint (a size : Z) (little : bool) : lres bytes :=
   if (size <? 8) && negb (u64 a <? 2 ^ (8 * size)) then LErr                                  (* "unsigned overflow" *)
   else LVal (pack_core (u64 a) size false little).
 
-(* Nelua: packint is used for both 'i' and 'I'; no overflow check; neg = a < 0 in both cases *)
-Definition nl_pack_int (a size : Z) (little : bool) : bytes := pack_core (u64 a) size (a <? 0) little.
-Definition nl_pack_uint (a size : Z) (little : bool) : bytes := pack_core (u64 a) size (a <? 0) little.
+(* Nelua packint (after 333c294): takes [issigned]; neg = issigned and a < 0; for sizes below 8
+     lim = 1 << (size*8 - 1)  (uint64)
+     assert(not issigned or n + lim < 2*lim, 'integer overflow')      -- n + lim wraps in uint64
+     assert(issigned or n < 2*lim, 'unsigned overflow') *)
+Definition nl_packint (a size : Z) (little issigned : bool) : res bytes :=
+  let n := u64 a in
+  let neg := issigned && (a <? 0) in
+  if size <? 8 then
+    let lim := u64 (Z.shiftl 1 (size * 8 - 1)) in
+    if issigned && negb (u64 (n + lim) <? u64 (2 * lim)) then Trap
+    else if negb issigned && negb (n <? u64 (2 * lim)) then Trap
+    else Val (pack_core n size neg little)
+  else Val (pack_core n size neg little).
+Definition nl_pack_int (a size : Z) (little : bool) : res bytes := nl_packint a size little true.
+Definition nl_pack_uint (a size : Z) (little : bool) : res bytes := nl_packint a size little false.
 
 (* unpackint, identical control flow in both sources.  [data]: the size bytes in memory order.
    Result: the uint64 accumulator reinterpreted as int64; None = "does not fit" error/assert *)
